@@ -2,7 +2,7 @@ From PW Require Import Equiv.Transport.
 From Coq Require Import Lia.
 
 Definition good_tflags (fl : tflags) : Prop :=
-  wait_keeps_early fl = true /\ result_from_early fl = true /\ result_drains fl = true /\ result_default fl = true.
+  wait_keeps_early fl = true /\ result_from_early fl = true /\ result_drains fl = true /\ result_default fl = true /\ result_only_when_dead fl = true.
 
 Section Proofs.
   Variable msg : Type.
@@ -28,7 +28,7 @@ Section Proofs.
     Inv (step msg fl s e)
         (match e with CSend m => if exited _ s then sent else Some m | _ => sent end).
   Proof.
-    destruct G as [G1 [G2 [G3 G4]]]. unfold Inv. intros [H R] Hs.
+    destruct G as [G1 [G2 [G3 [G4 G5]]]]. unfold Inv. intros [H R] Hs.
     destruct s as [p x ea re]. cbn [pipe exited early result] in *.
     destruct e as [m| | |]; cbn [step pipe exited early result].
     - subst sent. destruct x; [split; assumption|].
@@ -44,7 +44,7 @@ Section Proofs.
           unfold ready. cbn. destruct x; cbn; (split; [right; right; auto|exact R]).
       + destruct H as [P [Ea Re]]. cbn in *. subst. unfold ready. cbn.
         destruct x; cbn; (split; [split; auto|exact R]).
-    - destruct x; cbn [negb]; [|split; assumption].
+    - rewrite G5, Bool.andb_true_r. destruct x; cbn [negb]; [|split; assumption].
       destruct re as [o|]; [split; [exact H|exact R]|].
       rewrite G2, G3, G4. cbn. split; [|discriminate].
       destruct sent as [m|].
@@ -87,7 +87,7 @@ Section Proofs.
       + pose proof (step_inv s PGet sent Iv I) as I'.
         specialize (IH (step msg fl s PGet) sent I' Hn Hs).
         assert (X : exited _ (step msg fl s PGet) = exited _ s).
-        { cbn. destruct (exited _ s) eqn:E; cbn; [|exact E]. destruct (result _ s); [exact E|reflexivity]. }
+        { destruct G as [_ [_ [_ [_ G5]]]]. cbn. rewrite G5, Bool.andb_true_r. destruct (exited _ s) eqn:E; cbn; [|exact E]. destruct (result _ s); [exact E|reflexivity]. }
         rewrite X in IH. exact IH.
   Qed.
 
@@ -115,7 +115,7 @@ Section Proofs.
     set (sent := sent_before_exit msg es false None) in *.
     pose proof (step_inv s1 PGet sent Iv I) as I2.
     assert (R2 : result _ (step msg fl s1 PGet) = Some (match sent with Some m => Report m | None => NoReport end)).
-    { destruct G as [G1 [G2 [G3 G4]]]. cbn. rewrite Hx. cbn. destruct Iv as [H R].
+    { destruct G as [G1 [G2 [G3 [G4 G5]]]]. cbn. rewrite Hx. cbn. destruct Iv as [H R].
       destruct (result _ s1) as [o|] eqn:Er.
       - destruct sent as [m|]; cbn.
         + destruct H as [[_ [_ X]]|[[_ [_ X]]|[_ X]]]; congruence.
@@ -137,4 +137,41 @@ End Proofs.
 Theorem lost_without_guard :
   exists fl, wait_keeps_early fl = false /\ wait_receives fl = true /\ result_from_early fl = true /\ result_drains fl = true /\
     result nat (run nat fl (init nat) [CSend 7; PWait; CExit; PWait; PGet]) = Some NoReport.
-Proof. exists (Build_tflags true false true true true). repeat split. Qed.
+Proof. exists (Build_tflags true false true true true true). repeat split. Qed.
+
+(* C16: nothing of the child's final message - outcome or user state - is taken over by the parent while the child lives,
+   for EVERY history of sends, waits and accessor calls (no assumption on how often the child sends) *)
+Section Alive.
+  Variable msg : Type.
+  Variable fl : tflags.
+  Hypothesis D : result_only_when_dead fl = true.
+
+  Lemma step_alive_no_result s e :
+    (exited _ s = false -> result _ s = None) -> exited _ (step msg fl s e) = false -> result _ (step msg fl s e) = None.
+  Proof.
+    intros H. destruct s as [p x ea re]. cbn [pipe exited early result] in *.
+    destruct e as [m| | |]; cbn [step pipe exited early result].
+    - destruct x; cbn; auto.
+    - cbn. discriminate.
+    - repeat match goal with
+             | |- context [if ?b then _ else _] => destruct b
+             | |- context [match ?o with Some _ => _ | None => _ end] => destruct o
+             | |- context [match ?l with [] => _ | _ :: _ => _ end] => destruct l
+             end; cbn; auto.
+    - rewrite D, Bool.andb_true_r. destruct x; cbn [negb]; [|cbn; auto].
+      destruct re; cbn; intros; try discriminate; auto.
+  Qed.
+
+  Theorem alive_no_result es : forall s,
+    (exited _ s = false -> result _ s = None) -> exited _ (run msg fl s es) = false -> result _ (run msg fl s es) = None.
+  Proof.
+    induction es as [|e r IH]; intros s H; cbn [run fold_left]; [exact H|].
+    apply IH. apply step_alive_no_result. exact H.
+  Qed.
+End Alive.
+
+(* without the guard an accessor called after a wait() that received the message takes it over although the child is alive *)
+Theorem taken_over_alive_without_guard :
+  let s := run nat (Build_tflags true true true true true false) (init nat) [CSend 7; PWait; PGet] in
+  exited _ s = false /\ result _ s = Some (Report 7).
+Proof. split; reflexivity. Qed.
